@@ -1222,6 +1222,23 @@ func ringRule(c *Ctx, ruleID string) {
 				L.Fail(ruleID, "ringStripe.Push", "after the consumer accepted the batch s.data is re-used instead of being replaced by a fresh slice: the stripe and the policy goroutine share the backing array", fa.Pos())
 			}
 		}
+		// the item is recorded: s.data = append(s.data, item) on every path, before the hand-over
+		isAppend := func(in ssa.Instruction) bool {
+			st, isSt := in.(*ssa.Store)
+			if !isSt {
+				return false
+			}
+			fa, isFA := st.Addr.(*ssa.FieldAddr)
+			if !isFA || fieldName(fa.X.Type(), fa.Field) != "data" {
+				return false
+			}
+			vt := tb.T(st.Val)
+			return vt.Op == "call" && vt.Sym == "append" && len(vt.Args) == 2 && vt.Args[0].String() == "fld[data](p[0])"
+		}
+		if r, path := mustPass(entryPos(fn), isAppend, nil); r != nil {
+			ok = false
+			L.Fail(ruleID, "ringStripe.Push", "a path through Push does not append the item to s.data (block path "+pathString(path)+"): the access is never recorded", instrPos(r))
+		}
 		// whatever the verdict, the stripe starts over: a refused batch is dropped (the consumer has already
 		// counted it as dropped), never kept and offered again
 		isDataStore := func(in ssa.Instruction) bool {
